@@ -343,3 +343,14 @@ pub fn build_ss(prior: &[Tm]) -> Rc<SubstitutionSet<'static>> {
     if last == 0 { ss.clear(); }
     Rc::new(ss)
 }
+
+/// -0.0 and 0.0 are the same number: computed results are compared modulo the sign of zero.
+pub fn unsign_zero(t: &Tm) -> Tm {
+    match t {
+        Tm::Flt(0, 0, s) if s == "-0" => Tm::Flt(0, 0, String::new()),
+        Tm::Cx(f, a) => Tm::Cx(f.clone(), a.iter().map(unsign_zero).collect()),
+        Tm::Fn(f, a) => Tm::Fn(f.clone(), a.iter().map(unsign_zero).collect()),
+        Tm::List(a, tl) => Tm::List(a.iter().map(unsign_zero).collect(), tl.as_ref().map(|x| Box::new(unsign_zero(x)))),
+        other => other.clone(),
+    }
+}
